@@ -220,7 +220,8 @@ func protoShapes() []*fuzzInput {
 	add("native-bad-term", wire.Native, "$4 PINGxx$4 PING\r\n")
 	// the native line parser (HTTP paths, POST bodies and `$n line` share it): quotes and JSON starts
 	for i, line := range []string{`set k i string "`, `set k i string ""`, `set k i string "a`, `set k i string a"`, `set k i STRING "`, `set k i object {`, `set k i object {"type":"Point"`,
-		`"`, `""`, `" "`, `set "`, `get k "`, `set k i string  `, `  set   k  i  string  x  `, `set k i string "x" y`, `set k i field "f" 1 string "`} {
+		`"`, `""`, `" "`, `set "`, `get k "`, `set k i string  `, `  set   k  i  string  x  `, `set k i string "x" y`, `set k i field "f" 1 string "`,
+		` `, `  `, "\t", ` "" `, `   ping`} {
 		esc := strings.NewReplacer(" ", "+", `"`, "%22", "{", "%7B", "}", "%7D").Replace(line)
 		add("http-native-line-"+strconv.Itoa(i), wire.HTTPGet, "GET /"+esc+" HTTP/1.1\r\n\r\n")
 		add("post-native-line-"+strconv.Itoa(i), wire.HTTPPost, "POST / HTTP/1.1\r\nContent-Length: "+strconv.Itoa(len(line))+"\r\n\r\n"+line)
@@ -243,6 +244,11 @@ func protoShapes() []*fuzzInput {
 	}
 	add("known-line-within-line", wire.RESP, string(wire.EncodeRESP("TEST", "OBJECT", `{"type":"LineString","coordinates":[[0,0],[1,0],[1,1]]}`, "WITHIN", "OBJECT", `{"type":"LineString","coordinates":[[0,0],[1,0],[2,0]]}`)))
 	add("known-jset-balloon", wire.RESP, "*5\r\n$4\r\nJSET\r\n$7\r\nballoon\r\n$3\r\ndoc\r\n$9\r\n999999999\r\n$1\r\n1\r\n")
+	// paths and bodies that decode to blanks only: no command name at all
+	for i, pth := range []string{"%20", "%20%20", "+%20", "%09", "%0D%0A", "%00", "%20?x=1", "%22%22"} {
+		add("http-blank-path-"+strconv.Itoa(i), wire.HTTPGet, "GET /"+pth+" HTTP/1.1\r\nHost: x\r\n\r\n")
+	}
+	add("post-blank-crlf", wire.HTTPPost, "POST / HTTP/1.1\r\nContent-Length: 4\r\n\r\n \r\n ")
 	add("http-no-path", wire.HTTPGet, "GET  HTTP/1.1\r\n\r\n")
 	add("http-root", wire.HTTPGet, "GET / HTTP/1.1\r\n\r\n")
 	add("http-bad-escape", wire.HTTPGet, "GET /PING%zz HTTP/1.1\r\n\r\n")
